@@ -10,7 +10,8 @@
    byte-exact generator correspondence and judged on the reference machine. *)
 From Coq Require Import ZArith List String Bool.
 From Gigue Require Import Types Bits Isa Enc GenTables Builder BuilderTies Samplers Generator Machine MachineLemmas
-  SplitProofs FragProofs GenLemmas ImageSem CtorSpec C12Defs C12Proofs GenWF GenWFProps SliceLemmas GenWF2 GenWF3 GenWF2Props Witness.
+  SplitProofs FragProofs GenLemmas ImageSem CtorSpec C12Defs C12Proofs GenWF GenWFProps SliceLemmas GenWF2 GenWF3 GenWF2Props
+  GenWF5 GenWF6 MethodContract WholeImage Loader Witness LoaderWitness.
 Import ListNotations.
 Open Scope Z_scope.
 
@@ -40,6 +41,55 @@ Theorem C06_no_backward_transfer : forall c script img, successful c script img 
   Forall (fun m => Forall (fun g => forward g = true) (m_instrs m)) (im_methods img).
 Proof. exact methods_forward_only. Qed.
 
+(* PROVED (Layer B), the two variants without isolation (without / with trampolines), for every
+   accepted configuration, decision script, emitted image and entry state
+   (ImageSem.Init, files at the generation address; side conditions as in
+   C01_base_image_from_files): THE NUMBER OF INSTRUCTIONS THE IMAGE EXECUTES IS
+   FINITE AND EQUALS THE VALUE COMPUTED STATICALLY FROM THE CALL DAG AND THE
+   SELECTED PIC CASES:  the machine halts at the halt address after exactly
+     image_steps c img eh = 12 + sum_{(e,h) in eh} elem_cost e h + 13
+   steps, where eh pairs every element of the image (in element order) with the
+   hit case the interpreter loads for it,
+     elem_cost (method id) _ = 2 + steps id
+     elem_cost (PIC p) h     = 3 + (2 (h-1) + 3) + steps (case h of p)
+     (each plus 10 with trampolines: 2 more stub instructions, 5 + 3 trampoline instructions)
+     steps id = |method id| + sum of steps over its callees  (steps_method). *)
+Theorem C06_executed_count_plain : forall c script img,
+  successful c script img -> plain c ->
+  (uses_tramp (c_variant c) = true -> c_data_reg c <> 6) ->
+  forall L s0, Init c img (Ntot c img) L s0 -> code_lo L = int_start_al c ->
+    code_hi L - code_lo L < 2147483648 - 2048 -> pics_encodable img ->
+    (forall r o, In (r, o) int_slots -> 0 <= rget s0 r < W64) ->
+    exists s' eh, map fst eh = im_elements img /\ Forall (fun x => hit_ok (fst x) (snd x)) eh /\
+      run (gv c) L (image_steps c img eh) s0 = (Next s', image_steps c img eh) /\ pc s' = halt_at L.
+Proof.
+  intros c script img Hs Hb H6 L s0 HI Hat Hsm Hp Hr.
+  destruct (plain_image_from_files c script img Hs Hb H6 L s0 HI Hat Hsm Hp Hr) as (s' & eh & E1 & E2 & R & P & _).
+  exists s', eh. auto.
+Qed.
+
+(* the per-method count is ImageSem.count_method (the quantity the dynamic judge
+   computes from the structured image), for the non-FIXER variants *)
+Theorem C06_steps_is_static_count : forall c script img,
+  successful c script img -> non_fixer (c_variant c) ->
+  forall f id, Z.of_nat (steps_method (im_methods img) f id) = count_method c (im_methods img) f id.
+Proof.
+  intros c script img Hs Hnf. apply steps_method_count; [exact Hnf|].
+  destruct (successful_wf c script img Hs) as [W _]. destruct (iw_layout c img W) as (e' & d & HP).
+  apply (Forall_len_total c). apply (p2_methods _ _ _ _ _ _ HP).
+Qed.
+
+(* PROVED (Layer B), plain variants: every method, entered as in
+   C01_every_method_returns_partial, takes EXACTLY steps_method machine steps -
+   whatever the register and data contents. *)
+Theorem C06_method_steps_partial : forall c script img,
+  successful c script img -> plain c ->
+  forall L, placed c img L ->
+  forall id m, nth_error (im_methods img) id = Some m ->
+  contract c img L (need_method c (im_methods img) (max_depth (im_methods img)) id)
+           (steps_method (im_methods img) (max_depth (im_methods img)) id) m.
+Proof. exact every_method_returns. Qed.
+
 Theorem C06_nonvacuous : exists img, successful wcfg_tramp wscript_tramp img.
 Proof. exact witness_tramp. Qed.
 
@@ -66,6 +116,9 @@ Proof. exact switch_case_miss. Qed.
 Print Assumptions C06_calls_decrease_depth.
 Print Assumptions C06_call_graph_acyclic.
 Print Assumptions C06_no_backward_transfer.
+Print Assumptions C06_executed_count_plain.
+Print Assumptions C06_steps_is_static_count.
+Print Assumptions C06_method_steps_partial.
 Print Assumptions C06_nonvacuous.
 Print Assumptions C06_possible_callees_lower_partial.
 Print Assumptions C06_registration_keeps_consistency_partial.
